@@ -225,6 +225,14 @@ func (x *Exec) heapsWrittenIn(fr *Frame, blocks map[*ssa.BasicBlock]bool, seen m
 				}
 				callee := cc.StaticCallee()
 				if callee == nil {
+					if named, ok := cc.Value.Type().(*types.Named); ok {
+						if con := x.P.specs.Funcs["ext:dynamic:"+named.String()]; con != nil && !con.ModAll {
+							for _, m := range con.Modifies {
+								x.markModHeapsSig(cc.Signature(), m, out)
+							}
+							continue
+						}
+					}
 					// closure call: find MakeClosure / function values conservatively
 					return true
 				}
@@ -327,11 +335,37 @@ func (x *Exec) markPtrHeaps(addr ssa.Value, elem types.Type, out map[string]bool
 	}
 }
 
+// markModHeapsSig: as markModHeaps for a call through a typed function value (parameters p0, p1, ...).
+func (x *Exec) markModHeapsSig(sig *types.Signature, m *Expr, out map[string]bool) {
+	x.markModHeapsT(func(name string) types.Type {
+		var i int
+		if _, err := fmt.Sscanf(name, "p%d", &i); err == nil && i < sig.Params().Len() {
+			return sig.Params().At(i).Type()
+		}
+		return nil
+	}, m, out)
+}
+
 func (x *Exec) markModHeaps(callee *ssa.Function, m *Expr, out map[string]bool) {
+	x.markModHeapsT(func(name string) types.Type {
+		for _, p := range callee.Params {
+			if p.Name() == name {
+				return p.Type()
+			}
+		}
+		return nil
+	}, m, out)
+}
+
+func (x *Exec) markModHeapsT(paramType func(string) types.Type, m *Expr, out map[string]bool) {
 	ss := x.P.ss
 	switch {
 	case m.Op == "call" && m.Name == "fb":
 		out["FB"] = true
+		return
+	case m.Op == "call" && m.Name == "disk":
+		out["DISK"] = true
+		out["DISKLEN"] = true
 		return
 	case m.Op == "call" && m.Name == "ghost":
 		out["G_"+m.Args[0].Name] = true
@@ -358,12 +392,7 @@ func (x *Exec) markModHeaps(callee *ssa.Function, m *Expr, out map[string]bool) 
 			return
 		}
 	}
-	var t types.Type
-	for _, p := range callee.Params {
-		if p.Name() == root.Name {
-			t = p.Type()
-		}
-	}
+	t := paramType(root.Name)
 	if t == nil {
 		out["$all"] = true
 		return
@@ -420,7 +449,7 @@ func (x *Exec) havocLoop(st *State, fr *Frame, l *Loop, phis []*ssa.Phi) {
 	if written["$top"] || all {
 		nt := x.freshName("top")
 		st.declare(nt, "Int")
-		st.assume(sx(">=", nt, st.top))
+		st.assume(and(sx(">=", nt, st.top), sx("<=", nt, "4611686018427387904")))
 		st.top = nt
 	}
 	// heaps
@@ -492,7 +521,7 @@ func (x *Exec) assumeFrame(st *State, key, old, nh, loopEntryTop string) {
 		return
 	}
 	sort := st.hsort[key]
-	rows := len(key) > 3 && key[:3] == "HS_" || key == "FB"
+	rows := len(key) > 3 && key[:3] == "HS_" || key == "FB" || key == "DISK"
 	var excl []string
 	for _, t := range x.modset {
 		if t.heap != key {
